@@ -463,15 +463,72 @@ def _skeleton_worker(payload):
 
 
 def replay(case):
+    if case.get("lateral"):
+        d = check_lateral(case)
+        return None if d is None else {"kind": "replay", "case": case, "detail": d}
     e = case["expected"]
     d = compare((e["S"], e["T"], [tuple(p) for p in e["pairs"]]), actual(case["sql"], case["dialect"]))
     return None if d is None else {"kind": "replay", "case": case, "detail": d}
+
+
+# ------------------------------------------------------------------------------------------ lateral column alias stream
+LAT_E1 = [("a + 1", ["a"]), ("coalesce(a, z)", ["a", "z"]), ("cast(a as int)", ["a"]), ("s.a", ["a"])]
+LAT_E2 = [("b + k", ["k"]), ("case when b > 0 then k else b end", ["k"]), ("b", []), ("max(b) over (partition by k)", ["k"])]
+LAT_MD = {"s1.s": ["a", "k", "z"], "s1.s2": ["a2", "k2"], "s9.tk": ["x", "y"]}
+
+
+def lateral_cases():
+    """LATERAL_COLUMN_ALIAS_REFERENCE on + a provider that knows the source's columns: a select item may reference an EARLIER select alias
+    ('select a + 1 as b, b + k as c'); the dataflow of c is then that of b's expression plus k.  Every pair of expression forms x every way the
+    target columns get their names (select aliases, INSERT column list, CREATE VIEW column list, CTAS, known target by position, a second
+    set-operation branch with its own aliases)"""
+    import itertools
+
+    for (e1, r1), (e2, r2) in itertools.product(LAT_E1, LAT_E2):
+        sel = f"select {e1} as b, {e2} as c from s1.s s"
+        for form, names in (("insert into s9.t " + sel, ("b", "c")), ("insert into s9.t (x, y) " + sel, ("x", "y")), ("create view s9.v (x, y) as " + sel, ("x", "y")),
+                            ("create table s9.t as " + sel, ("b", "c")), ("insert into s9.tk " + sel, ("x", "y")),
+                            ("insert into s9.t " + sel + " union all select a2 as p, p + k2 as q from s1.s2", ("b", "c"))):
+            tgt = "s9.v" if "view" in form else ("s9.tk" if "s9.tk" in form else "s9.t")
+            exp = {("s1.s." + c, f"{tgt}.{names[0]}") for c in r1} | {("s1.s." + c, f"{tgt}.{names[1]}") for c in set(r1) | set(r2)}
+            if "union" in form:
+                exp |= {("s1.s2.a2", f"{tgt}.b"), ("s1.s2.a2", f"{tgt}.c"), ("s1.s2.k2", f"{tgt}.c")}
+            yield {"lateral": True, "sql": form, "metadata": LAT_MD, "expected_pairs": sorted(list(p) for p in exp)}
+
+
+def check_lateral(case):
+    from sqllineage.config import SQLLineageConfig
+
+    try:
+        with SQLLineageConfig(LATERAL_COLUMN_ALIAS_REFERENCE=True):
+            lr = observe.runner_of(case["sql"], "ansi", metadata=case["metadata"])
+            got = [list(p) for p in observe.pairs(lr)]
+    except Exception as e:  # noqa
+        return {"what": "raises", "exc": observe.exc_name(e), "msg": str(e)[:200]}
+    exp = [list(p) for p in case["expected_pairs"]]
+    if got != exp:
+        return {"what": "column pairs differ from the lateral-alias dataflow", "missing": [p for p in exp if p not in got], "extra": [p for p in got if p not in exp]}
+    return None
+
+
+def _lateral_worker(payload):
+    shard, nshards, ctx = payload
+    res = runner.Res()
+    for idx, c in enumerate(lateral_cases()):
+        if idx % nshards != shard:
+            continue
+        res.case(c["sql"], True, labels=["lateral_alias"], sample=c if idx % 17 == 0 else None)
+        d = check_lateral(c)
+        if d is not None and len(res.violations) < 3:
+            res.violation("lateral_alias", c, d)
+    return res
 
 
 def run(ctx):
     nshards = runner.NCPU * 2
     res = runner.merge_all(runner.pmap(_skeleton_worker, [(i, nshards, ctx) for i in range(nshards)]))
     res.merge(runner.merge_all(runner.pmap(_update_merge_worker, [(i, nshards, ctx) for i in range(nshards)])))
+    res.merge(runner.merge_all(runner.pmap(_lateral_worker, [(i, runner.NCPU, ctx) for i in range(runner.NCPU)])))
     res.extra["skeletons"] = sum(1 for _ in skeletons())
     n = ctx.n(1440, 40000)
     payloads = [(i, n // runner.NCPU, 2, ctx) for i in range(runner.NCPU)]
